@@ -76,7 +76,8 @@ class TagFlow:
                         loc[n.id] = t
             out = EMPTY
             if isinstance(expr, ast.DictComp):
-                out |= self.tags(expr.key, state, loc)
+                # keys are hashable (immutable in practice): only the values
+                # can alias caller state
                 out |= self.tags(expr.value, state, loc)
             else:
                 out |= self.tags(expr.elt, state, loc)
@@ -92,6 +93,11 @@ class TagFlow:
             return self.tags(expr.body, state, loc)
         if isinstance(expr, ast.Constant):
             return EMPTY
+        if isinstance(expr, ast.Dict):
+            out = EMPTY
+            for v in expr.values:
+                out |= rec(v)
+            return out
         out = EMPTY
         for child in ast.iter_child_nodes(expr):
             if isinstance(child, (ast.expr, ast.keyword)):
@@ -155,7 +161,10 @@ class TagFlow:
             f = a.func
             if isinstance(f, ast.Attribute) and f.attr in MUTATORS:
                 t = EMPTY
-                for arg in list(a.args) + [k.value for k in a.keywords]:
+                args = list(a.args) + [k.value for k in a.keywords]
+                if f.attr == "setdefault":
+                    args = args[1:]  # the key does not alias
+                for arg in args:
                     t |= self.tags(arg, s)
                 if t:
                     self._assign(f.value, t, s, weak=True)
